@@ -35,7 +35,7 @@ def unhex(s):
 class Proc:
     """A /verif child of the server test binary (serve | registry), optionally under strace."""
 
-    def __init__(self, binary, role, wd, tag, models=None, strace_log=None, env=None):
+    def __init__(self, binary, role, wd, tag, models=None, strace_log=None, env=None, strsize="100000000"):
         self.portfile = os.path.join(wd, f"port-{tag}")
         if os.path.exists(self.portfile):
             os.remove(self.portfile)
@@ -49,7 +49,7 @@ class Proc:
         test = {"serve": "^TestVFServeChild$", "registry": "^TestVFCrashRegistry$"}[role]
         cmd = [binary, "-test.run", test, "-test.timeout", "0"]
         if strace_log:
-            cmd = ["strace", "-f", "-y", "-s", "100000000", "-xx", "-o", strace_log, "-e", "trace=" + EFFECT_SYSCALLS, "--"] + cmd
+            cmd = ["strace", "-f", "-y", "-s", strsize, "-xx", "-o", strace_log, "-e", "trace=" + EFFECT_SYSCALLS, "--"] + cmd
         self.out = open(os.path.join(wd, f"out-{tag}.log"), "wb")
         self.p = subprocess.Popen(cmd, env=e, cwd=wd, stdout=self.out, stderr=subprocess.STDOUT, start_new_session=True)
         self.port = self.pid = None
